@@ -80,17 +80,18 @@ structure Res where
   ok : Bool
   deriving DecidableEq, Repr
 
-/-- the quotient estimate, inv_div_qr_n.c:45-73: returns (N1, q, ret, asserts held) where N1 is {np, 2dn} after the
-    conditional subtraction of :45-49 and ret2 the bit of :47 -/
-def estimate (dn N D inv : Nat) : Nat × Nat × Nat × Nat × Bool :=
+/-- inv_div_qr_n.c:45-49: `if (mpn_cmp (np + dn, dp, dn) >= 0) { ret2 = 1; mpn_sub_n (np + dn, np + dn, dp, dn); }`
+    returns ({np, 2dn} afterwards, ret2) -/
+def reduceTop (dn N D : Nat) : Nat × Nat :=
   let Nh := N / B ^ dn                                              -- {np+dn, dn}
-  let ret2 := if D ≤ Nh then 1 else 0                               -- :45-47
-  let Nh1 := if D ≤ Nh then (subN dn Nh D).1 else Nh                -- :48
-  let N1 := N % B ^ dn + B ^ dn * Nh1
+  if D ≤ Nh then (N % B ^ dn + B ^ dn * (subN dn Nh D).1, 1) else (N, 0)
+
+/-- the quotient estimate, inv_div_qr_n.c:51-73, on N1 = {np, 2dn} after `reduceTop`: returns (q, ret, asserts held) -/
+def estimate (dn N1 inv : Nat) : Nat × Nat × Bool :=
   let W := N1 / B ^ (dn - 1)                                        -- {np+dn-1, dn+1}
   let tp := W * inv                                                 -- :52 mpn_mul (tp, np+dn-1, dn+1, inv, dn)
-  let cy := (N1 / B ^ (dn - 1) % B + tp / B ^ dn % B) / B           -- :53 add_ssaaaa (cy, lo, 0, np[dn-1], 0, tp[dn])
-  let a1 := addN dn (tp / B ^ (dn + 1) % B ^ dn) Nh1                -- :54 ret += mpn_add_n (qp, tp+dn+1, np+dn, dn)
+  let cy := (W % B + tp / B ^ dn % B) / B                           -- :53 add_ssaaaa (cy, lo, 0, np[dn-1], 0, tp[dn])
+  let a1 := addN dn (tp / B ^ (dn + 1) % B ^ dn) (N1 / B ^ dn)      -- :54 ret += mpn_add_n (qp, tp+dn+1, np+dn, dn)
   let a2 := addN dn a1.1 cy                                         -- :55 ret += mpn_add_1 (qp, qp, dn, cy)
   let ret := a1.2 + a2.2
   let s1 := if ret = 1 then subN dn a2.1 1 else (a2.1, 0)           -- :63-67
@@ -100,7 +101,7 @@ def estimate (dn N D inv : Nat) : Nat × Nat × Nat × Nat × Bool :=
   let ret := (ret + B - s2.2) % B
   let a3 := if ret = B - 1 then addN dn s2.1 1 else (s2.1, 0)       -- :70-71
   let ret := (ret + a3.2) % B
-  (N1, a3.1, ret, ret2, as1 && decide (ret = 0))                    -- :73 ASSERT (ret == 0)
+  (a3.1, ret, as1 && decide (ret = 0))                              -- :73 ASSERT (ret == 0)
 
 /-- {tp, m} before `mpn_sub_n (np, np, tp, m)`, inv_div_qr_n.c:75-94, m = dn + 1 -/
 def product (dn N1 D q ret : Nat) : Nat × Bool :=
@@ -116,14 +117,16 @@ def product (dn N1 D q ret : Nat) : Nat × Bool :=
 
 /-- mpn_inv_div_qr_n (qp, np, dp, dn, inv), inv_div_qr_n.c:32-111.  N = {np, 2dn}, D = {dp, dn}, inv = {inv, dn}. -/
 def invDivQrN (dn N D inv : Nat) : Res :=
-  let e := estimate dn N D inv
-  let N1 := e.1; let q := e.2.1; let ret := e.2.2.1; let ret2 := e.2.2.2.1
+  let t := reduceTop dn N D
+  let N1 := t.1; let ret2 := t.2
+  let e := estimate dn N1 inv
+  let q := e.1; let ret := e.2.1
   let m := dn + 1
   let p := product dn N1 D q ret
   let r0 := (subN m (N1 % B ^ m) p.1).1                             -- :97 mpn_sub_n (np, np, tp, m); :98 MPN_ZERO (np+m, 2dn-m)
   let l := corrLoop dn D loopFuel { q := q, ret := ret, r := r0, adds := 0 }
   { q := l.q, r := l.r, qh := (l.ret + ret2) % B, adds := l.adds,
-    ok := decide (1 ≤ dn) && isInvert dn inv D && e.2.2.2.2 && p.2 && !loopCond dn D l.r
+    ok := decide (1 ≤ dn) && isInvert dn inv D && e.2.2 && p.2 && !loopCond dn D l.r
           && decide (l.ret + ret2 < 2) }                            -- :43, :106
 
 /-- limb-vector wrapper -/
